@@ -780,13 +780,6 @@ static int parse_msr(
     if (operands[1].type == OPERAND_REG)
     {
       //ps = operands[0].value;
-      add_bin32(asm_context, opcode | (operands[1].value << 12), IS_OPCODE);
-      return 4;
-    }
-      else
-    if (operands[1].type == OPERAND_REG)
-    {
-      //ps = operands[0].value;
       add_bin32(asm_context, opcode | (operands[1].value), IS_OPCODE);
       return 4;
     }
